@@ -72,13 +72,29 @@ static double progressOf(ExecutionContext::Impl& c) {
 }
 static ExecutionContext::Impl* g_ctx;
 static bool g_in_env;
+static int g_mode;  // 1: the environment is an OBSERVER (reset_order); 2: it is the RESETTING WRITER (progress_vs_reset)
+static int g_done0, g_total0, g_new, g_wstep;
 extern "C" void vf_env() {  // called around every atomic access of the code under test
-  if (g_ctx && !g_in_env) {
-    g_in_env = true;  // the observer's own loads are atomic accesses too
+  if (!g_ctx || g_in_env) return;
+  g_in_env = true;  // the environment's own loads/stores are atomic accesses too
+  if (g_mode == 1) {
     double p = progressOf(*g_ctx);
     VF_ASSERT(p <= 1.0);
-    g_in_env = false;
+    // the guarantee the writer model of progress_vs_reset relies on: the pair
+    // (donePhases, totalPhases) only ever passes through these three states
+    const int d = g_ctx->donePhases.load(), t = g_ctx->totalPhases.load();
+    VF_ASSERT((d == g_done0 && t == g_total0) || (d == 0 && t == g_total0) || (d == 0 && t == g_new));
+  } else if (g_mode == 2) {
+    // a concurrent ResetForStaticFactory (context reuse): its two relevant
+    // stores happen in program order, any number of them at this point
+    unsigned k = vf_nondet_u8() & 3;
+    while (k-- && g_wstep < 2) {
+      if (g_wstep == 0) g_ctx->donePhases.store(0, std::memory_order_relaxed);
+      else g_ctx->totalPhases.store(g_new, std::memory_order_relaxed);
+      g_wstep++;
+    }
   }
+  g_in_env = false;
 }
 extern "C" void h_reset_order() {
   ExecutionContext::Impl ctx;
@@ -86,9 +102,31 @@ extern "C" void h_reset_order() {
   vf_assume(0 <= done && done <= total && newTotal >= 0);
   ctx.donePhases.store(done);
   ctx.totalPhases.store(total);
+  g_done0 = done; g_total0 = total; g_new = newTotal;
+  g_mode = 1;
   g_ctx = &ctx;
   ResetForStaticFactory(&ctx, newTotal);
   g_ctx = nullptr;
   VF_ASSERT(ctx.donePhases.load() == 0 && ctx.totalPhases.load() == newTotal);
+  VF_END();
+}
+
+// The other side of the same protocol: the REAL ExecutionContext::Progress()
+// polled while another thread resets the context for reuse (writer model
+// above, justified by reset_order's state assertion).  Progress must read the
+// denominator first: reading done first can pair the old numerator with the
+// new, smaller denominator.
+extern "C" void h_progress_vs_reset() {
+  ExecutionContext ctx;
+  int done = vf_int(), total = vf_int(), newTotal = vf_int();
+  vf_assume(0 <= done && done <= total && newTotal >= 0);
+  ctx.impl_->donePhases.store(done);
+  ctx.impl_->totalPhases.store(total);
+  g_done0 = done; g_total0 = total; g_new = newTotal; g_wstep = 0;
+  g_mode = 2;
+  g_ctx = ctx.impl_.get();
+  const double p = ctx.Progress();
+  g_ctx = nullptr;
+  VF_ASSERT(p >= 0.0 && p <= 1.0);
   VF_END();
 }
